@@ -233,10 +233,124 @@ def substore_context(ctx):
         same_class = [k for k, c in acc.items() if str(c.abstract_syntax) == ab]
         case = ["substore-context", {"acc": L.case_of_acc(acc), "ab": ab, "cid": cid}]
         ctx.case(case, nontrivial=len(same_class) > 1, kind="substore-context:" + ("class-on-several-contexts" if len(same_class) > 1 else "single"))
+        # the same request with a handler that raises: the documented failure response, on the request's context
+        from pynetdicom import evt as _evt
+
+        assoc, rec = L.make_assoc()
+        assoc._accepted_cx = acc
+
+        def boom(event):
+            raise OSError("scripted C-STORE handler failure")
+
+        assoc.bind(_evt.EVT_C_STORE, boom)
+        req = L.make_request("cStore", ab)
+        req._context_id = cid
+        assoc._c_store_scp(req)
+        rsent = [(x[0], x[2]) for x in rec.sent]
+        if handlers and rsent != [(cid, 0xC211)]:
+            ctx.fail("c-store-scp:raising-handler-response",
+                     f"C-STORE sub-operation request on context {cid} (accepted {sorted(acc)}), handler raises: responses (context, status) "
+                     f"{[(a, hex(b)) for a, b in rsent]}, documented [({cid}, 0xc211)]", case)
         if handlers and (len(sent) != 1 or sent[0][0] != cid):
             ctx.fail("c-store-scp:response-on-other-context",
                      f"C-STORE sub-operation request on context {cid} (the SOP class is accepted on {same_class}): handler saw context {handlers}, "
                      f"response(s) sent on {[a for a, _ in sent]}", case)
+
+
+def msgid_e2e(_=None):
+    """real provider, real wire: requests with the boundary message ids 0, 1 and 65535 (all legal) over loopback; each
+    must come back with its Pending responses and one final response carrying that id"""
+    from pydicom.dataset import Dataset
+    from pynetdicom import AE, evt
+    from pynetdicom.sop_class import (
+        CTImageStorage, DisplaySystem, PatientRootQueryRetrieveInformationModelFind as F, Verification,
+    )
+
+    from harness import e2e
+
+    e2e.quiet()
+
+    def h_find(event):
+        for i in range(2):
+            ds = Dataset()
+            ds.QueryRetrieveLevel, ds.PatientID = "PATIENT", str(i)
+            yield 0xFF00, ds
+
+    def h_nget(event):
+        ds = Dataset()
+        ds.PatientName = "X"
+        return 0x0000, ds
+
+    ae = AE()
+    for cx in (Verification, CTImageStorage, F, DisplaySystem):
+        ae.add_supported_context(cx)
+    ae.acse_timeout = ae.dimse_timeout = ae.network_timeout = 10
+    seen = []
+    srv = ae.start_server(("127.0.0.1", 0), block=False, evt_handlers=[
+        (evt.EVT_C_ECHO, lambda e: 0x0000), (evt.EVT_C_STORE, lambda e: 0x0000), (evt.EVT_C_FIND, h_find), (evt.EVT_N_GET, h_nget)])
+    out = []
+    try:
+        cl = AE()
+        for cx in (Verification, CTImageStorage, F, DisplaySystem):
+            cl.add_requested_context(cx)
+        cl.acse_timeout, cl.network_timeout, cl.dimse_timeout = 10, 10, 1.5
+        a = cl.associate("127.0.0.1", srv.socket.getsockname()[1],
+                         evt_handlers=[(evt.EVT_DIMSE_RECV, lambda e: seen.append((type(e.message).__name__, getattr(e.message.command_set, "MessageIDBeingRespondedTo", None))))])
+        if not a.is_established:
+            return [{"error": "not established"}]
+        for mid in (1, 0, 65535):
+            if not a.is_established:
+                out.append({"msg_id": mid, "error": "association lost"})
+                break
+            del seen[:]
+            r = {"msg_id": mid}
+            st = a.send_c_echo(msg_id=mid)
+            r["echo"] = getattr(st, "Status", None) if st else None
+            ident = Dataset()
+            ident.QueryRetrieveLevel, ident.PatientID = "PATIENT", "*"
+            r["find"] = [getattr(s_, "Status", None) if s_ else None for s_, _ in a.send_c_find(ident, F, msg_id=mid)] if a.is_established else None
+            ds = Dataset()
+            ds.SOPClassUID, ds.SOPInstanceUID, ds.PatientName = CTImageStorage, "1.2.3." + str(mid + 1), "X"
+            from pydicom.dataset import FileMetaDataset
+            from pydicom.uid import ImplicitVRLittleEndian
+
+            ds.file_meta = FileMetaDataset()
+            ds.file_meta.TransferSyntaxUID = ImplicitVRLittleEndian
+            st = a.send_c_store(ds, msg_id=mid) if a.is_established else None
+            r["store"] = getattr(st, "Status", None) if st else None
+            if a.is_established:
+                st, _ = a.send_n_get([0x00100010], DisplaySystem, "1.2.840.10008.5.1.1.40.1", msg_id=mid)
+                r["nget"] = getattr(st, "Status", None) if st else None
+            r["received"] = list(seen)
+            out.append(r)
+        if a.is_established:
+            a.release()
+        return out
+    finally:
+        srv.shutdown()
+
+
+def msgid_check(ctx):
+    import multiprocessing as mp
+
+    pool = mp.get_context("fork").Pool(processes=1, maxtasksperchild=1)
+    try:
+        res = pool.apply(msgid_e2e)
+    finally:
+        pool.terminate()
+        pool.join()
+    for r in res:
+        case = ["msgid-e2e", r.get("msg_id")]
+        ctx.case(case, nontrivial=True, kind="msgid-e2e")
+        if "error" in r:
+            ctx.fail("e2e:association-lost-on-boundary-message-id", f"message id {r.get('msg_id')}: {r['error']}", case)
+            continue
+        mid = r["msg_id"]
+        bad_msgs = [m for m in r["received"] if not m[0].endswith("_RSP") or m[1] != mid]
+        if r["echo"] != 0 or r["find"] != [0xFF00, 0xFF00, 0x0000] or r["store"] != 0 or r.get("nget") != 0 or bad_msgs:
+            ctx.fail("e2e:responses-for-boundary-message-id",
+                     f"requests with message id {mid}: C-ECHO status {r['echo']}, C-FIND statuses {r['find']}, C-STORE {r['store']}, N-GET {r.get('nget')}; "
+                     f"messages received by the requestor that are not responses to id {mid}: {bad_msgs[:6]}", case)
 
 
 def run(ctx):
@@ -262,6 +376,7 @@ def run(ctx):
     for i in range(0, len(cases), 5000):
         _run_batch(ctx, S, cases[i : i + 5000])
     substore_context(ctx)
+    msgid_check(ctx)
     ctx.extra["services"] = len(S)
     ctx.extra["exhaustive_scope"] = "all generator item lists of length <= %d over a 10-symbol alphabet for the 6 C-FIND services" % ctx.n(2, 4)
     ctx.note(
